@@ -6,7 +6,10 @@ from . import core, tlaval, dsdlio
 
 SYNTAX_FORMS = ["uint8", "@@@", "uint8 a b", "= 3", "'abc", "@print 1 +", "uint8[ a", "  uint8 indented", "@sealed extra ]"]
 
-def stmt_text(k: str, i: int, rng: random.Random, fancy: bool) -> str:
+# names of the constant "K" of the identifier-scope alphabet: legal attribute names that begin with a type keyword included
+KNAMES = ["K", "boolean", "bytes_total", "uint8x", "float16_", "utf8_text", "int8x", "void1x", "bool_", "truncated_", "saturatedK", "byte_"]
+
+def stmt_text(k: str, i: int, rng: random.Random, fancy: bool, K: str = "K") -> str:
     sp = (lambda: rng.choice([" ", "  ", "\t", " \t "])) if fancy else (lambda: " ")
     osp = (lambda: rng.choice(["", " ", "  "])) if fancy else (lambda: " ")
     if k == "field":
@@ -17,11 +20,11 @@ def stmt_text(k: str, i: int, rng: random.Random, fancy: bool) -> str:
                           "%d ** 1" % i]) if fancy else str(i)
         return "uint16" + sp() + "C%d" % i + osp() + "=" + osp() + val
     if k == "kdef":         # the constant named K; its value is the (abstract) line it stands on
-        return "uint8" + sp() + "K" + osp() + "=" + osp() + (rng.choice([str(i), "'\\u%04x'" % i, '"\\U%08x"' % i]) if fancy else str(i))
+        return "uint8" + sp() + K + osp() + "=" + osp() + (rng.choice([str(i), "'\\u%04x'" % i, '"\\U%08x"' % i]) if fancy else str(i))
     if k == "kuse":         # a constant whose initialiser reads K: value = 1000 * (line of the K it denotes) + own line
-        return "uint16" + sp() + "U%d" % i + osp() + "=" + osp() + rng.choice(["K * 1000 + %d" % i, "%d + 1000 * K" % i] if fancy else ["K * 1000 + %d" % i])
+        return "uint16" + sp() + "U%d" % i + osp() + "=" + osp() + rng.choice([K + " * 1000 + %d" % i, "%d + 1000 * " % i + K, K + "*1000+%d" % i] if fancy else [K + " * 1000 + %d" % i])
     if k == "kprint":
-        return "@print" + sp() + "K * 1000 + %d" % i
+        return "@print" + sp() + K + " * 1000 + %d" % i
     if k == "pad":
         return "void%d" % i
     if k == "union":
@@ -41,7 +44,9 @@ def stmt_text(k: str, i: int, rng: random.Random, fancy: bool) -> str:
     if k == "bprint":
         return "@print"
     if k == "sprint":       # the printed VALUE is a string: empty, or with line breaks in it
-        return "@print" + sp() + rng.choice(["''", '""', "'a\\nb'", '"\\n"', "'x\\r\\ny\\n'", "'' + ''"])
+        return "@print" + sp() + rng.choice(["''", '""', "'a\\nb'", '"\\n"', "'x\\r\\ny\\n'", "'' + ''",
+                                              # raw characters that str.splitlines() takes for line boundaries but that end no line
+                                              "'a\x0cb'", "'\x0b'", '"\x1c\x1d\x1e"', "'\u0085'", "'a\u2028b\u2029'"])
     if k == "esprint":      # escaped line breaks inside a literal on ONE physical line
         lit = rng.choice(["'a\\nb'", '"a\\r\\nb\\n"', "'\\n\\n\\n'", "'a\\rb'"])
         return "@print" + sp() + str(i) + " + {" + lit + "}.count - 1"
@@ -54,7 +59,8 @@ def stmt_text(k: str, i: int, rng: random.Random, fancy: bool) -> str:
     if k == "assertfalse":
         return "@assert" + sp() + "false"
     if k == "undef":
-        return "@assert" + sp() + "nosuch%d" % i
+        # a fault met while the expression is evaluated: an undefined identifier, operator or attribute
+        return "@assert" + sp() + (rng.choice(["nosuch%d" % i, "%d + true" % i, "{%d} < 2" % i, "{%d}.nosuch" % i, "!%d" % i]) if fancy else "nosuch%d" % i)
     if k == "syntax":
         return rng.choice(SYNTAX_FORMS)
     raise ValueError(k)
@@ -72,6 +78,7 @@ def render(lines, seed: int, variant: int) -> str:
     rng = random.Random(seed * 31 + variant)
     fancy = variant > 0
     eol = "\r\n" if variant == 1 else "\n"
+    kname = rng.choice(KNAMES) if fancy else "K"
     out = []
     for idx, l in enumerate(lines):
         i = idx + 1
@@ -81,7 +88,7 @@ def render(lines, seed: int, variant: int) -> str:
         elif k == "empty":
             s = ""
         else:
-            s = stmt_text(k, i, rng, fancy)
+            s = stmt_text(k, i, rng, fancy, kname)
             if fancy and rng.random() < 0.5 and k != "syntax":
                 s += rng.choice([" ", "  ", "\t"])          # trailing blanks on a non-empty line
         if c:
@@ -154,7 +161,7 @@ def project(status, res, prints, file_path: str, to_abs=lambda x: x, anytext=())
         for c in cmp.constants:
             if c.name.startswith("C") and str(c.data_type) == "saturated uint16" and c.value.native_value == int(c.name[1:]):
                 consts.append((int(c.name[1:]), _doc_ids(c.doc)))
-            elif c.name == "K" and str(c.data_type) == "saturated uint8":
+            elif c.name in KNAMES and str(c.data_type) == "saturated uint8":
                 consts.append((int(c.value.native_value), _doc_ids(c.doc)))
             elif c.name.startswith("U") and str(c.data_type) == "saturated uint16" and c.value.native_value % 1000 == int(c.name[1:]):
                 consts.append((int(c.name[1:]), _doc_ids(c.doc)))
